@@ -248,7 +248,12 @@ class Inductor(Entity):
 
         # Schedule poll after one smoothed interval
         wait_s = self._smoothed_interval if self._smoothed_interval else 0.01
-        poll_time = now + Duration.from_seconds(wait_s)
+        wait = Duration.from_seconds(wait_s)
+        if wait == Duration.ZERO:
+            # Sub-nanosecond interval: a poll at `now` could not forward either (no
+            # time has passed since the last output) and would re-arm itself forever.
+            wait = Duration(1)
+        poll_time = now + wait
         return [
             Event(
                 time=poll_time,
